@@ -587,7 +587,43 @@ func (ex *Exec) loopSpecStale(fn *ssa.Function, ls *LoopSpec) bool {
 	return false
 }
 
+// notInductive: loop blocks (function key -> spec ordinals) whose invariants were discharged on
+// the baseline tree and do not hold for the loop as it is now. The block is set aside and the
+// loop is unrolled instead (runCheck, second pass).
+var notInductive = map[string]map[int]bool{}
+
 func (ex *Exec) matchLoops(fn *ssa.Function, c *Contract) *loopMatch {
+	if m, ok := loopMatches[fn]; ok {
+		return m
+	}
+	if set := notInductive[fnKeyOf(fn)]; len(set) > 0 {
+		kept := &Contract{Loops: map[int]*LoopSpec{}}
+		var dropped []int
+		for o, ls := range c.Loops {
+			if set[o] {
+				dropped = append(dropped, o)
+			} else {
+				kept.Loops[o] = ls
+			}
+		}
+		sort.Ints(dropped)
+		// blocks are matched to loops as before; a loop matched to a set-aside block has none
+		full := ex.matchLoopsOf(fn, c)
+		m := &loopMatch{specOf: map[int]int{}, dropped: append([]int(nil), full.dropped...)}
+		for l, so := range full.specOf {
+			if !set[so] {
+				m.specOf[l] = so
+			}
+		}
+		m.dropped = append(m.dropped, dropped...)
+		loopMatches[fn] = m
+		droppedLoopSpecs[fnKeyOf(fn)] = m.dropped
+		return m
+	}
+	return ex.matchLoopsOf(fn, c)
+}
+
+func (ex *Exec) matchLoopsOf(fn *ssa.Function, c *Contract) *loopMatch {
 	if m, ok := loopMatches[fn]; ok {
 		return m
 	}
@@ -600,7 +636,25 @@ func (ex *Exec) matchLoops(fn *ssa.Function, c *Contract) *loopMatch {
 		specOrds = append(specOrds, o)
 	}
 	sort.Ints(specOrds)
-	direct := len(specOrds) == n
+	{
+		// a block about a variable the function no longer has cannot be evaluated at any loop
+		live := specOrds[:0]
+		for _, o := range specOrds {
+			if ex.loopSpecStale(fn, c.Loops[o]) {
+				m.dropped = append(m.dropped, o)
+			} else {
+				live = append(live, o)
+			}
+		}
+		if len(m.dropped) > 0 {
+			specOrds = live
+			droppedLoopSpecs[fnKeyOf(fn)] = m.dropped
+			if len(specOrds) == 0 {
+				return m
+			}
+		}
+	}
+	direct := len(specOrds) == n && len(m.dropped) == 0
 	for i, o := range specOrds {
 		if o != i {
 			direct = false
@@ -608,17 +662,7 @@ func (ex *Exec) matchLoops(fn *ssa.Function, c *Contract) *loopMatch {
 	}
 	if direct || len(specOrds) == 0 {
 		for _, o := range specOrds {
-			if ex.loopSpecStale(fn, c.Loops[o]) {
-				// the block is about a variable the function no longer has (the loop has been
-				// rewritten around other state): it cannot be evaluated, the loop is checked by
-				// bounded unrolling instead and the block's obligations are reported as dropped
-				m.dropped = append(m.dropped, o)
-				continue
-			}
 			m.specOf[o] = o
-		}
-		if len(m.dropped) > 0 {
-			droppedLoopSpecs[fnKeyOf(fn)] = m.dropped
 		}
 		return m
 	}
